@@ -177,3 +177,54 @@ example : trend (⟨1, 0, 0, 0, 0, 0, [10, 2, 1], [7, 8]⟩ : Par Int) ⟨3, 2, 
 example : ∃ p : Par ℝ, p.P ≠ 0 := ⟨⟨1, 0, 0, 0, 0, 0, [], []⟩, one_ne_zero⟩
 
 end Mcmc
+
+/-! ### call history of `setup_mcmc` on one model -/
+namespace Mcmc
+
+/-- **call history.** Whatever sequence of `setup_mcmc` calls is made on one model: if none of them is refused, the
+likelihood node of the model was built from the data of *every* one of those calls (so all of them passed the same data) —
+a chain run on the model never samples another data set's posterior than the one just given. -/
+theorem setup_history_consistent {δ : Type} [DecidableEq δ] :
+    ∀ (ds : List δ) (m m' : MState δ), setupCalls m ds = .ok m' →
+      (∀ d0, m.obs = some d0 → m'.obs = some d0) ∧ ∀ d ∈ ds, m'.obs = some d := by
+  intro ds
+  induction ds with
+  | nil =>
+    intro m m' h
+    simp only [setupCalls, Except.ok.injEq] at h
+    subst h
+    exact ⟨fun _ h => h, by simp⟩
+  | cons d ds ih =>
+    intro m m' h
+    simp only [setupCalls] at h
+    cases hc : setupCall m d with
+    | error e => rw [hc] at h; cases h
+    | ok m1 =>
+      rw [hc] at h
+      obtain ⟨hkeep, hall⟩ := ih m1 m' h
+      have h1 : m1.obs = some d ∧ ∀ d0, m.obs = some d0 → m1.obs = some d0 := by
+        unfold setupCall at hc
+        cases ho : m.obs with
+        | none =>
+          rw [ho] at hc; simp only [Except.ok.injEq] at hc; subst hc
+          exact ⟨rfl, by intro d0 h0; cases h0⟩
+        | some d0 =>
+          rw [ho] at hc
+          by_cases hd : d0 = d
+          · simp only [hd, if_true, Except.ok.injEq] at hc; subst hc
+            exact ⟨by rw [ho, hd], fun d1 h1 => by rw [ho]; exact h1⟩
+          · simp [hd] at hc
+      refine ⟨fun d0 h0 => hkeep d0 (h1.2 d0 h0), ?_⟩
+      intro x hx
+      rcases List.mem_cons.mp hx with rfl | hx
+      · exact hkeep _ h1.1
+      · exact hall x hx
+
+/-- a call with other data than the model was set up for is refused -/
+theorem setup_other_data_refused {δ : Type} [DecidableEq δ] (d0 d : δ) (h : d0 ≠ d) :
+    setupCall (⟨some d0⟩ : MState δ) d = .error () := by
+  simp [setupCall, h]
+
+example : (match setupCalls (⟨none⟩ : MState Nat) [3, 3, 3] with | .ok m => m.obs | .error _ => none) = some 3 := by decide
+example : (match setupCalls (⟨none⟩ : MState Nat) [3, 4] with | .ok _ => true | .error _ => false) = false := by decide
+end Mcmc
